@@ -91,14 +91,16 @@ macro_rules! stp9 { ($($n:ident: $k:expr, $v:expr, $l:expr, $f:expr;)*) => { $(#
 stp9! { step_onclick_camel: 6, 0, false, false; step_onclick_lower: 6, 0, true, false; }
 
 /// spread arm (C01 spread placement per mergeProps; C13 spreads force has_dynamic_keys)
-fn step_spread<const OBJ: bool>() {
-    let opts = any_options();
-    let merge = opts.merge_props;
+fn step_spread<const OBJ: bool, const PREV: bool, const MERGE: bool>() {
+    // container shapes are concrete per harness (an earlier prop or not; mergeProps on or off): symbolic shapes multiply the SAT instance
+    let mut opts = any_options();
+    opts.merge_props = MERGE;
+    let merge = MERGE;
     let mut v = visitor(opts);
     let kv = PropOrSpread::Prop(Box::new(Prop::KeyValue(KeyValueProp { key: PropName::Ident(idn("k")), value: opaque(3) })));
     let s = SpreadElement { dot3_token: sp(6), expr: if OBJ { Box::new(Expr::Object(ObjectLit { span: sp(3), props: vec![kv] })) } else { opaque(2) } };
     let (mut st, p) = any_state_with::<false>();
-    let one_prop: bool = kani::any();
+    let one_prop: bool = PREV;
     if one_prop { st.props.push(PropOrSpread::Prop(Box::new(Prop::KeyValue(KeyValueProp { key: PropName::Str(Str { span: DUMMY_SP, value: Atom::from("pp"), raw: None }), value: opaque(7) })))); }
     let p = Pre { props_pp: one_prop, ..p };
     let n_props = st.props.len(); let n_merge = st.merge_args.len();
@@ -124,11 +126,12 @@ fn step_spread<const OBJ: bool>() {
     std::mem::forget(st); std::mem::forget(s); std::mem::forget(v);
 }
 pub fn dedupe_identity(props: Vec<PropOrSpread>) -> Vec<PropOrSpread> { props }
-macro_rules! sts { ($($n:ident: $k:expr;)*) => { $(#[kani::proof] #[kani::unwind(4)]
+macro_rules! sts { ($($n:ident: $k:expr, $p:expr, $m:expr;)*) => { $(#[kani::proof] #[kani::unwind(4)]
     #[kani::stub(std::ptr::drop_in_place, no_drop)] #[kani::stub(core::ptr::drop_glue, no_glue)] #[kani::stub(alloc::fmt::format, fmt_marker)]
     #[kani::stub(crate::util::dedupe_props, dedupe_identity)]
-    fn $n() { step_spread::<$k>() })* } }
-sts! { step_spread_expr: false; step_spread_object: true; }
+    fn $n() { step_spread::<$k, $p, $m>() })* } }
+sts! { step_spread_expr_merge: false, false, true; step_spread_expr_nomerge: false, false, false; step_spread_expr_prev_merge: false, true, true; step_spread_expr_prev_nomerge: false, true, false;
+       step_spread_object_merge: true, false, true; step_spread_object_nomerge: true, false, false; step_spread_object_prev_merge: true, true, true; step_spread_object_prev_nomerge: true, true, false; }
 
 /// finalisation block == final_flags (shared contract), for every combination of the analysis booleans (complete)
 #[kani::proof] #[kani::unwind(3)] #[kani::stub(std::ptr::drop_in_place, no_drop)] #[kani::stub(core::ptr::drop_glue, no_glue)]
@@ -207,8 +210,8 @@ fn step_on_strict() {
 
 /// directive arm (parse_directive replaced by its model): C04 html/text props, C05 v-model keys and listener, C13 effect
 /// on the analysis state == the lemma's K_DIR_* / K_VMODEL_* steps.
-fn step_dir<const PD: u8>() {
-    let comp: bool = kani::any();
+fn step_dir<const PD: u8, const COMP: bool>() {
+    let comp: bool = COMP;   // the host kind decides which vectors grow: concrete per harness
     let mut v = visitor(any_options());
     unsafe { PD_KIND = PD; }
     let a = jsx_attr("v-x", Some(container(opaque(1))));
@@ -255,8 +258,6 @@ fn step_dir<const PD: u8>() {
         7 => assert!(matches!(&st.slots, Some(e) if is_opaque(e, 7)) && props.is_empty() && directives.is_empty(), "C03: v-slots yields the slots expression and no prop"),
         _ => assert!(st.slots.is_none() && props.is_empty() && directives.is_empty(), "C03: v-slots without a usable value yields nothing"),
     }
-    kani::cover!(comp, "component host reachable");
-    kani::cover!(!comp, "element host reachable");
     std::mem::forget(st); std::mem::forget(a); std::mem::forget(directives); std::mem::forget(v);
 }
 fn arrow_assigns_event_to(a: &ArrowExpr, target: u32) -> bool {
@@ -266,11 +267,13 @@ fn arrow_assigns_event_to(a: &ArrowExpr, target: u32) -> bool {
         _ => false }, _ => false };
     p_ok && b_ok
 }
-macro_rules! std_h { ($($n:ident: $k:expr;)*) => { $(#[kani::proof] #[kani::unwind(3)]
+macro_rules! std_h { ($($n:ident: $k:expr, $c:expr;)*) => { $(#[kani::proof] #[kani::unwind(3)]
     #[kani::stub(std::ptr::drop_in_place, no_drop)] #[kani::stub(core::ptr::drop_glue, no_glue)]
     #[kani::stub(crate::directive::parse_directive, pd_model)] #[kani::stub(alloc::fmt::format, fmt_marker)]
-    fn $n() { step_dir::<$k>() })* } }
-std_h! { step_dir_normal: 0; step_dir_html: 1; step_dir_text: 2; step_vmodel_plain: 3; step_vmodel_computed: 5; step_vmodel_nullarg: 6; step_slots_some: 7; step_slots_none: 8; }
+    fn $n() { step_dir::<$k, $c>() })* } }
+std_h! { step_dir_normal: 0, false; step_dir_normal_comp: 0, true; step_dir_html: 1, false; step_dir_text: 2, false; step_dir_html_comp: 1, true;
+         step_vmodel_plain: 3, false; step_vmodel_plain_comp: 3, true; step_vmodel_computed: 5, true; step_vmodel_computed_elem: 5, false; step_vmodel_nullarg: 6, false; step_vmodel_nullarg_comp: 6, true;
+         step_slots_some: 7, true; step_slots_none: 8, true; }
 
 /// spread arm, hint effect only (cheap variant of U-step-spread for the quick tier): EVERY spread forces has_dynamic_keys,
 /// whatever the options and whatever the spread argument is (C13: spread props always carry FULL_PROPS).
